@@ -47,7 +47,7 @@ def variants(case, X, y):
         X2 = X.copy()
         X2[c] = -X2[c]
         out.append((f"negate:{c}", X2, y, q, l))
-        for a in (2.0, 0.5, 1024.0):
+        for a in (2.0, 0.5, 1024.0, 2.0**-40, 2.0**40):  # powers of two: every homogeneous computation scales exactly
             X2 = X.copy()
             X2[c] = X2[c] * a
             out.append((f"scale{a}:{c}", X2, y, q, l))
@@ -234,7 +234,7 @@ def run(tier, seed, rep):
     # outlier measures (Tukey fences / z-score) in front of the association measure
     for target in ("binary", "multiclass"):
         for outl in ("iqr", "zscore"):
-            for sub in (["fence", "noisy1", "indep2"], ["fence2", "noisy2", "indep1"], ["fence", "fence2", "copy"], ["noisy1", "noisy2", "fence"]):
+            for sub in (["fence", "noisy1", "indep2"], ["fence2", "noisy2", "indep1"], ["fence", "fence2", "copy"], ["noisy1", "noisy2", "fence"], ["spike", "noisy1", "indep2"], ["spike", "fence", "noisy2"]):
                 for n_best in (1, 2, 3):
                     base.append({"selector": "classification", "target": target, "qcols": list(sub), "lcols": [], "n_best": n_best, "thresh_corr": 1, "outliers": outl})
     # colsample < 1: frames with exactly one perfect column among 3 (4 in thorough) candidates of one type, every shuffle outcome
